@@ -5,7 +5,7 @@ from lib.checkdef import default_replay_cmd, run_property
 def run(tier, seed):
     return run_property(
         "C10", tier, seed, level="other",
-        deductive=[("c01_step", r"C10\.|no_other_exception"), ("c10_init", None), ("c04_graph", r"C10\.replay|C04\.replay"), ("c_op", r"^C10\.infer"), ("c13_inplace", r"^C10\.inplace"), ("c06_getter", r"^C10\.getter")],
+        deductive=[("c10_astype", None), ("c01_step", r"C10\.|no_other_exception"), ("c10_init", None), ("c04_graph", r"C10\.replay|C04\.replay"), ("c_op", r"^C10\.infer"), ("c13_inplace", r"^C10\.inplace"), ("c06_getter", r"^C10\.getter")],
         bounded=[("api_bounded.py", ["--check", "C10"])],
         trusted=["pyvc/graphdom.py heap model", "NumPy dtype classification (np.floating / np.integer / np.bool_ subclass tests) as axioms of the dtype lattice"],
         assumptions=[
